@@ -515,6 +515,39 @@ theorem asUnsafePath_led (env : Env) (fd : Fd) : Led ext S (Procfs.asUnsafePath 
   · intro sub; exact readlinkH_led env env.proc _ sub
   · intro _; rfl
 
+theorem openFollowTail_led (env : Env) (h : ProcH) (base : Procfs.Base) (subpath : Bytes) (fl : Nat) :
+    Led ext S (Procfs.openFollowTail env h base subpath fl) (PostFd S) := by
+  unfold Procfs.openFollowTail
+  apply Led.bind_ro (Led.ofExcept rfl)
+  · intro pr
+    obtain ⟨parent, trailing⟩ := pr
+    dsimp only
+    split
+    · exact Led.throw rfl
+    · rename_i trailing
+      apply Led.bind_fd (openH_led env _ h base parent _ _)
+      · intro pfd hpfd
+        refine Led.bind_onErr_ro S (fetchMntId_led pfd [])
+          (LedP.close_to S (by fdset) (by fdset)) ?_ PostFd.err
+        intro pm
+        refine Led.bind_onErr_ro S (verifySameMnt_led pm pfd trailing)
+          (LedP.close_to S (by fdset) (by fdset)) ?_ PostFd.err
+        intro _
+        refine Led.bind_try (openatFollow_led pfd trailing fl 0) ?_
+        intro r S'' hr
+        cases r with
+        | ok fd =>
+          obtain ⟨hfd, rfl⟩ := hr
+          refine Led.close_then pfd (ins fd S) (by fdset) (by fdset) ?_
+          exact Led.ofExcept ⟨by fdset, rfl⟩
+        | error e' =>
+          have hr' : S'' = ins pfd S := hr
+          subst hr'
+          refine Led.close_then pfd S (by fdset) (by fdset) ?_
+          exact Led.ofExcept rfl
+      · exact PostFd.err
+  · exact PostFd.err
+
 theorem openFollowH_led (env : Env) (h : ProcH) (base : Procfs.Base) (subpath : Bytes) (oflags : Nat) :
     Led ext S (Procfs.openFollowH env h base subpath oflags) (PostFd S) := by
   unfold Procfs.openFollowH
@@ -528,36 +561,10 @@ theorem openFollowH_led (env : Env) (h : ProcH) (base : Procfs.Base) (subpath : 
   split
   · split
     · exact openH_led env _ h base _ _ _
-    · exact Led.throw rfl
-  · apply Led.bind_ro (Led.ofExcept rfl)
-    · intro pr
-      obtain ⟨parent, trailing⟩ := pr
-      dsimp only
-      split
+    · split
+      · exact openFollowTail_led env h base _ fl
       · exact Led.throw rfl
-      · rename_i trailing
-        apply Led.bind_fd (openH_led env _ h base parent _ _)
-        · intro pfd hpfd
-          refine Led.bind_onErr_ro S' (fetchMntId_led pfd [])
-            (LedP.close_to S' (by fdset) (by fdset)) ?_ PostFd.err
-          intro pm
-          refine Led.bind_onErr_ro S' (verifySameMnt_led pm pfd trailing)
-            (LedP.close_to S' (by fdset) (by fdset)) ?_ PostFd.err
-          intro _
-          refine Led.bind_try (openatFollow_led pfd trailing fl 0) ?_
-          intro r S'' hr
-          cases r with
-          | ok fd =>
-            obtain ⟨hfd, rfl⟩ := hr
-            refine Led.close_then pfd (ins fd S') (by fdset) (by fdset) ?_
-            exact Led.ofExcept ⟨by fdset, rfl⟩
-          | error e' =>
-            have hr' : S'' = ins pfd S' := hr
-            subst hr'
-            refine Led.close_then pfd S' (by fdset) (by fdset) ?_
-            exact Led.ofExcept rfl
-        · exact PostFd.err
-    · exact PostFd.err
+  · exact openFollowTail_led env h base _ fl
 
 theorem reopen_led (env : Env) (fd : Fd) (flags : Nat) : Led ext S (Procfs.reopen env fd flags) (PostFd S) := by
   unfold Procfs.reopen
